@@ -4,6 +4,7 @@ import (
 	"fmt"
 	"strings"
 	"testing"
+	"verif/fold"
 
 	"github.com/alicebob/sqlittle"
 	sdb "github.com/alicebob/sqlittle/db"
@@ -93,7 +94,7 @@ func runSQLite(r *vt.Run, t vt.TB, s sqSpec) {
 		}
 		var def *sqlgen.Index
 		for k := range ts.Indexes {
-			if strings.EqualFold(ts.Indexes[k].Ident.Name, ii.Name) {
+			if fold.Equal(ts.Indexes[k].Ident.Name, ii.Name) {
 				def = &ts.Indexes[k]
 			}
 		}
@@ -141,7 +142,7 @@ func runSQLite(r *vt.Run, t vt.TB, s sqSpec) {
 				o += " DESC"
 			}
 			orderBy = append(orderBy, o)
-			attrs = append(attrs, refcmp.KeyCol{Collate: strings.ToLower(x.Coll), Desc: x.Desc})
+			attrs = append(attrs, refcmp.KeyCol{Collate: fold.Lower(x.Coll), Desc: x.Desc})
 		}
 		if !ok {
 			r.Exclude("index-not-expressible")
